@@ -251,7 +251,7 @@ CHECKS = {
     text="Gateway.tla models the gateway as a decision procedure over the request space (HTTP method x path shape x object-name class x "
          "member x key configuration x key presented in header / $key x expose pattern x oneway option x query shape: about 1.3 million requests) "
          "with Decide (refuse without traffic / preflight / index / forward) and Forward (what runs, status, body); TLC checks OnlyAuthorised "
-         "and InvokesOnlyNamed on all of them; Gen_Gateway.tla folds irrelevant fields and enumerates 12 566 distinguishable requests (including a method slower than the gateway's communication timeout and one whose result is an iterator); each "
+         "and InvokesOnlyNamed on all of them; Gen_Gateway.tla folds irrelevant fields and enumerates 12 610 distinguishable requests (including a method slower than the gateway's communication timeout and one whose result is an iterator); each "
          "is concretised as a WSGI environ and given to the real pyro_app in front of a real name-server object and real target objects in a "
          "real daemon (in-memory transport); every Pyro message the gateway sends is counted and every execution of a target member is logged "
          "with object, member, arguments and return value; status, body, traffic and executions are judged per request by TLC "
